@@ -663,6 +663,7 @@ func RunBatch(opt Options) int {
 	go func() { wg.Wait(); close(doneCh) }()
 	hangCh := make(chan *hangResult, 1)
 	go func() {
+		cleared := map[uint64]bool{} // runs that were slow here but end normally in a fresh process
 		for {
 			select {
 			case <-doneCh:
@@ -674,8 +675,18 @@ func RunBatch(opt Options) int {
 				st := atomic.LoadInt64(&slotStart[w])
 				if st != 0 && now-st > int64(hangSecs)*int64(time.Second) {
 					idx := atomic.LoadUint64(&slotIdx[w])
+					if cleared[idx] {
+						continue
+					}
 					fmt.Fprintf(os.Stderr, "run %d of %s has not ended after %ds; probing it in fresh processes\n", idx, ch.ID, hangSecs)
-					hangCh <- confirmHang(ch, opt, idx, nil, hangSecs)
+					h := confirmHang(ch, opt, idx, nil, hangSecs)
+					if !h.confirmed && strings.Contains(h.why, "ends normally") {
+						// a slow run on a loaded machine, not a hang: the batch goes on (the global watchdog of check.sh still applies)
+						fmt.Fprintf(os.Stderr, "run %d of %s ends normally in a fresh process: slow, not hung\n", idx, ch.ID)
+						cleared[idx] = true
+						continue
+					}
+					hangCh <- h
 					return
 				}
 			}
